@@ -30,11 +30,17 @@ Inductive ans (B : Type) := Verdict (b : B) | TransportErr.
 Arguments Verdict {B}. Arguments TransportErr {B}.
 
 (* answer of the block source to one step of SpvClient::poll_best_tip *)
-Inductive fetch_ans := F_ok | F_transient | F_persistent | F_stall.
+Inductive fetch_ans :=
+| F_ok
+| F_transient | F_persistent      (* the look-up of the best tip fails (mid-poll: the download fails) *)
+| F_block_fails                   (* a header / block download of the synchronisation fails *)
+| F_stall.                        (* a download takes longer than the polling interval *)
 Inductive fetch_res :=
 | FetchDone                                      (* nothing (more) to download: the poll is Ok *)
 | FetchBlock (hash : N) (txs : list N) (h : N)   (* the next block, handed to the listeners *)
-| FetchTransient | FetchPersistent               (* a header / block download failed: the poll is Err *)
+| FetchTransient | FetchPersistent               (* the best tip could not be looked up: the poll is Err *)
+| FetchFailed                                    (* a download failed: SpvClient keeps the tip it has reached and
+                                                    poll_best_tip still returns Ok(ChainTip::Better(announced tip)) *)
 | FetchCancelled.                                (* the poll's future was dropped at this await point *)
 
 Inductive rprog (A : Type) : Type :=
@@ -48,7 +54,7 @@ Inductive rprog (A : Type) : Type :=
 | RWait (k : rprog A)                                             (* while !*guard { guard = cv.wait(guard) } *)
 | RNotify (k : rprog A)                                           (* cv.notify_all() *)
 | RFetch (first : bool) (k : fetch_res -> rprog A)                (* SpvClient: next header/block of this poll *)
-| RPersist (k : rprog A)                                          (* dbm.store_last_known_block(tip) *)
+| RPersist (k : rprog A)                                          (* dbm.store_last_known_block(announced best tip) *)
 | RExhausted.                                                     (* the model's retry fuel ran out *)
 Arguments RRet {A}. Arguments RAcq {A}. Arguments RRel {A}. Arguments RAct {A}. Arguments RRpc {A}.
 Arguments RReadFlag {A}. Arguments RSetFlag {A}. Arguments RWait {A}. Arguments RNotify {A}.
@@ -117,8 +123,8 @@ Section Programs.
   Definition api_p (o : op) : rprog rout :=
     RAcq L_reach (RReadFlag (api_checked (embedk fuel (op_body o) (fun x => RRet (RO x))))).
 
-  (* ChainMonitor::poll_best_tip.  Ok arm: the tip is stored when it is better (a block was connected),
-     then `*reachable.lock().unwrap() = true; notifier.notify_all()` *)
+  (* ChainMonitor::poll_best_tip.  Ok arm: the tip is stored when it is better (got = there was something to
+     download), then `*reachable.lock().unwrap() = true; notifier.notify_all()` *)
   Definition poll_ok_p (got : bool) (k : rprog rout) : rprog rout :=
     (if got && Bootstrap.POLL_PERSISTS_BETTER_TIP then RAcq L_db (RPersist (RRel L_db
        (RAcq L_reach (RSetFlag true (RRel L_reach (RNotify k))))))
@@ -135,6 +141,7 @@ Section Programs.
           match r with
           | FetchDone => poll_ok_p got k
           | FetchBlock hash txs h => embedk fuel (connect_p le sc hash txs h) (fun _ => poll_loop n false true k)
+          | FetchFailed => poll_ok_p true k
           | FetchTransient => poll_transient_p k
           | FetchPersistent => k
           | FetchCancelled => k
@@ -241,14 +248,20 @@ Definition fetch_step (c : rconf) (i : nat) (first : bool) : fetch_res * rconf :
         let h := (rc_height c + 1)%N in
         (FetchBlock hash txs h, add_log (set_node c pend (popped ++ [(hash, txs)]) h) i (EvDeliver hash h))
     end in
+  let failed c :=
+    match rc_pending c with
+    | [] => (FetchDone, set_node c [] popped (rc_height c))
+    | _ => (FetchFailed, set_node c (rc_pending c) popped (rc_height c))
+    end in
   match a with
   | F_ok => deliver c
   | F_stall =>
       if stall_cancels
       then (FetchCancelled, set_node c (popped ++ rc_pending c) [] (rc_height c - N.of_nat (length popped))%N)
       else deliver c
-  | F_transient => (FetchTransient, set_node c (rc_pending c) popped (rc_height c))
-  | F_persistent => (FetchPersistent, set_node c (rc_pending c) popped (rc_height c))
+  | F_transient => if first then (FetchTransient, set_node c (rc_pending c) popped (rc_height c)) else failed c
+  | F_persistent => if first then (FetchPersistent, set_node c (rc_pending c) popped (rc_height c)) else failed c
+  | F_block_fails => failed c
   end.
 
 (* one event of thread i; None = the thread has ended / returned, does not exist, or is blocked *)
@@ -304,7 +317,10 @@ Definition rstep (c : rconf) (i : nat) : option rconf :=
               Some (add_log (put_thread (set_threads c (map notify_thread (rc_threads c))) i (RRun k) held) i EvNotify)
           | RFetch first k =>
               let '(r, c1) := fetch_step c i first in Some (put_thread c1 i (RRun (k r)) held)
-          | RPersist k => Some (add_log (put_thread (set_lkb c (rc_height c)) i (RRun k) held) i (EvPersist (rc_height c)))
+          | RPersist k =>
+              (* ChainTip::Better(new_best): the tip the node ANNOUNCED, whether or not every block below it was connected *)
+              let best := (rc_height c + N.of_nat (length (rc_pending c)))%N in
+              Some (add_log (put_thread (set_lkb c best) i (RRun k) held) i (EvPersist best))
           | RExhausted => Some (rdie c i RExhaust)
           end
       end
@@ -431,3 +447,22 @@ Definition stuck_on_lock (c : rconf) (m a : nat) (l : lock) : bool :=
       match wants tm with Some l' => N.eqb l l' | None => false end && waiting_unnotified ta && rholds ta l
   | _, _ => false
   end.
+
+(* ------------------------------------------------------------------------------------------ *)
+(* what the scenario driver uses: the chain monitor polls on demand *)
+Definition at_poll_start (th : rthread) : bool := match rt_st th with RRun (RFetch true _) => true | _ => false end.
+
+Fixpoint run_until_poll (n : nat) (c : rconf) (i : nat) : rconf :=
+  match n with
+  | O => c
+  | S m =>
+      match nth_error (rc_threads c) i with
+      | Some th =>
+          if at_poll_start th then c
+          else match rstep c i with Some c' => run_until_poll m c' i | None => c end
+      | None => c
+      end
+  end.
+(* thread i, about to poll, does ONE poll: until the next poll would start, it returns, ends or blocks *)
+Definition run_poll (n : nat) (c : rconf) (i : nat) : rconf :=
+  match rstep c i with Some c' => run_until_poll n c' i | None => c end.
